@@ -651,3 +651,99 @@ def solve_combination(rows, target):
     for ri, c in piv:
         sol[c] = A[ri][n]
     return sol
+
+
+# ------------------------------------------------------------------------------------------------------------------
+# Feasibility of a conjunction of polynomial sign conditions, decided in the LINEAR RELAXATION (every distinct monomial is an
+# independent real variable): infeasible in the relaxation => infeasible, so pruning on False is sound; True means "not refuted".
+
+def feasible(constraints, nonneg_monomials=(), max_rows=4000):
+    """constraints: iterable of (Rat diff, op) meaning `diff op 0`, op in <, <=, >, >=, ==, !=  (!= is ignored).
+    Rats with non-constant denominators are ignored (unknown sign of the denominator).
+    nonneg_monomials: monomial keys (as in Poly.t) known to be >= 0."""
+    rows = []  # (coef dict mono->Fraction, const Fraction, strict)  meaning  sum coef*x + const  (< or <=) 0
+
+    def add(poly, strict):
+        c = poly.t.get((), Fraction(0))
+        coef = {m: v for m, v in poly.t.items() if m != ()}
+        rows.append((coef, c, strict))
+
+    for r, op in constraints:
+        if not isinstance(r, Rat) or not r.d.is_const():
+            continue
+        p = r.n.scale(Fraction(1) / r.d.const_value())
+        if op == "<":
+            add(p, True)
+        elif op == "<=":
+            add(p, False)
+        elif op == ">":
+            add(-p, True)
+        elif op == ">=":
+            add(-p, False)
+        elif op == "==":
+            add(p, False)
+            add(-p, False)
+    for m in nonneg_monomials:
+        rows.append(({m: Fraction(-1)}, Fraction(0), False))
+    variables = sorted({m for coef, _, _ in rows for m in coef}, key=repr)
+    for v in variables:
+        pos, neg, rest = [], [], []
+        for row in rows:
+            a = row[0].get(v, 0)
+            (pos if a > 0 else neg if a < 0 else rest).append(row)
+        new = rest
+        for cp, kp, sp in pos:
+            ap = cp[v]
+            for cn, kn, sn in neg:
+                an = -cn[v]
+                coef = {}
+                for m, x in cp.items():
+                    if m != v:
+                        coef[m] = coef.get(m, 0) + x * an
+                for m, x in cn.items():
+                    if m != v:
+                        coef[m] = coef.get(m, 0) + x * ap
+                coef = {m: x for m, x in coef.items() if x != 0}
+                new.append((coef, kp * an + kn * ap, sp or sn))
+        if len(new) > max_rows:
+            return True  # give up: not refuted
+        rows = new
+        for coef, k, strict in rows:
+            if not coef and (k > 0 or (strict and k >= 0)):
+                return False
+    for coef, k, strict in rows:
+        if not coef and (k > 0 or (strict and k >= 0)):
+            return False
+    return True
+
+
+def implied_substitutions(constraints):
+    """equalities forced by the constraints (a non-strict condition whose strict version is infeasible, or an explicit ==),
+    returned as a substitution {atom: Rat} (each equality solved for one atom that occurs linearly with a constant coefficient)."""
+    cons = [(r, op) for r, op in constraints if isinstance(r, Rat) and r.d.is_const()]
+    eqs = []
+    for i, (r, op) in enumerate(cons):
+        if op == "==":
+            eqs.append(r)
+        elif op in ("<=", ">="):
+            strict = "<" if op == "<=" else ">"
+            others = cons[:i] + cons[i + 1:]
+            if not feasible(others + [(r, strict)]):
+                eqs.append(r)
+    mapping = {}
+    for r in eqs:
+        r = r.subst(mapping)
+        if not r.d.is_const() or r.is_zero():
+            continue
+        p = r.n
+        for m, c in sorted(p.t.items(), key=lambda kv: repr(kv[0])):
+            if len(m) == 1 and m[0][1] == 1:
+                a = m[0][0]
+                if any(a in [x for x, _ in m2] for m2 in p.t if m2 != m):
+                    continue
+                rest = Poly({m2: c2 for m2, c2 in p.t.items() if m2 != m})
+                val = Rat(rest.scale(Fraction(-1) / c))
+                mapping = {k: v.subst({a: val}) for k, v in mapping.items()}
+                mapping[a] = val
+                break
+    return mapping
